@@ -8,12 +8,23 @@ import orchestrator  # noqa: E402
 import oracles as O  # noqa: E402
 from report import Reporter  # noqa: E402
 L.ensure_built(); L.warm_cache()
-shapes = [s for s in F.di_shapes("quick") if s[0].get("c", "").endswith("S2")]
-o = orchestrator.observe_packable_family("di", "quick", shapes)
+if len(sys.argv) > 1 and sys.argv[1] == "mixC":
+    import json
+    seen, shapes = set(), []
+    for cn, r, cfg in F.mix_configs(2):
+        sh = F.mix_shape(cfg) if cn == "C" else None
+        if sh is not None and json.dumps(sh, sort_keys=True) not in seen:
+            seen.add(json.dumps(sh, sort_keys=True))
+            shapes.append(sh)
+    FAMN = "mix"
+else:
+    shapes = [s for s in F.di_shapes("quick") if s[0].get("c", "").endswith("S2")]
+    FAMN = "di"
+o = orchestrator.observe_packable_family(FAMN, "quick", shapes)
 for prop in ("C09", "C02", "C01", "C03", "C04"):
     rep = Reporter(prop, "quick", 0)
-    lvl, cov, asm = O.ORACLES[prop]({"di": o}, rep, "quick") if prop in ("C09",) else (None, {}, None)
+    lvl, cov, asm = O.ORACLES[prop]({FAMN: o}, rep, "quick") if prop in ("C09",) else (None, {}, None)
     if prop != "C09":
         base = {"C02": O.oracle_c02, "C01": O.oracle_c01, "C03": O.oracle_c03, "C04": O.oracle_c04}[prop]
-        lvl, cov, asm = base({"di": o}, rep, "quick")
+        lvl, cov, asm = base({FAMN: o}, rep, "quick")
     print(f"RESULT {prop} shapes={len(shapes)} violations={rep.new_violations()} evaluations={cov.get('evaluations')}")
